@@ -41,11 +41,14 @@ Definition new_block1_layout (B A buffer : Z) : outcome (Z * Z * Z) :=   (* bloc
   | Stuck => Stuck | Fuel => Fuel | Exn => Exn
   end.
 
+(* line 447-448: maxOverhead = pvGetAlignmentAddend() + 3*blockAlignment + sizeof(BufferBytes) + 2*sizeof(Byte* ) + sizeof(uint16_t) *)
+Definition max_overhead (B A : Z) : Z := Gen_MemPool.pvGetAlignmentAddend B A + 3 * A + 2 + 2 * 8 + 2.
+
 (* pvCheckParams (443-452) under the default settings (checks are assertions): true = passes, no throw *)
 Definition check_params (C B A : Z) : bool :=
   Gen_MemPoolConst.CheckBlockCount C && Gen_MemPoolConst.CheckBlockAlignment A && (0 <? B)
   && ((C =? 1) || (B mod A =? 0)) && ((C =? 1) || (2 <=? B / A))
-  && negb (B >? 18446744073709551615 / C).
+  && negb (B >? (18446744073709551615 - max_overhead B A) / C).                       (* 447-450, after fix e4ec548 *)
 
 (* the three-way choice of Allocate (297-302) and pvDeleteBlock(void* ) (472-477) for blockCount = 1:
    alignment addend 0 -> the manager block itself (pvGetBufferSize0 bytes), else pvNewBlock1 / pvDeleteBlock1.
